@@ -176,6 +176,16 @@ func suiteConvertPlain(R *runner, r *rng) {
 
 // pairs for which the library's conversion of STYLED sources is not the conversion through the plain view, with the
 // reason (what the source reader sets that the destination writer emits)
+// Pairs whose conversion of STYLED sources is modelled exactly (coq/Model/Conv<S><F>.v, theorem C07_S_to_F_styled): the
+// driver suite named here maps the source document (one byte string) to the destination bytes (class 0 + bytes, class 1 =
+// error, NS outside the faithful domain of the source reader's model).  Entries are added by init() functions next to
+// the format's harness code; an entry takes precedence over plainStyledSkipPairs.
+var styledConvSuites = map[string]string{}
+
+// optional oracle for such a pair: the destination bytes, read back by the library, must carry the text of the source
+// cues (returns "" or a description); C07: a conversion must not lose or alter text
+var styledConvOracle = map[string]func(src *astisub.Subtitles, dst []byte) string{}
+
 var plainStyledSkipPairs = map[string]string{
 	"srt->srt":  "same format: the markup is kept (C01)",
 	"vtt->vtt":  "same format: tags, settings, regions are kept (C02)",
@@ -279,6 +289,31 @@ func suiteConvertPlainStyled(R *runner, r *rng) {
 			}
 			for _, dst := range plainCodecs {
 				pair := src.name + "->" + dst.name
+				if suite, ok := styledConvSuites[pair]; ok {
+					// the pair is modelled exactly (coq/Model/Conv<S><F>.v): destination bytes against convert_S_F
+					s2, _ := src.read(doc)
+					var out bytes.Buffer
+					o := &obs{Suite: suite, Group: "conv.styled." + pair, Input: (&enc{}).bytes(doc).String(), NT: true,
+						Human: map[string]interface{}{"source": src.name, "destination": dst.name, "document": string(doc)}}
+					R.count("conv.styled." + pair)
+					var werr error
+					p := safely(func() { werr = dst.write(s2, &out) })
+					switch {
+					case p != "":
+						o.Impl, o.Oracle, o.Sig = "2", fmt.Sprintf("%s -> %s panicked: %s", src.name, dst.name, p), "convstyled-panic"
+					case werr != nil:
+						o.Impl = "1"
+					default:
+						o.Impl = (&enc{}).n(0).bytes(out.Bytes()).String()
+						if styledConvOracle[pair] != nil {
+							if m := styledConvOracle[pair](s0, out.Bytes()); m != "" {
+								o.Oracle, o.Sig = pair+": "+m, "convstyled-text-"+pair
+							}
+						}
+					}
+					R.add(o)
+					continue
+				}
 				if _, skip := plainStyledSkipPairs[pair]; skip {
 					R.count("plain.styled.restricted." + pair)
 					continue
